@@ -31,6 +31,7 @@ func main() {
 	explain := flag.String("explain", "", "re-evaluate the rule instance recorded in a violation file")
 	controlName := flag.String("control", "", "internal: run one positive control (overlay mutant) and print the findings as JSON")
 	vdir := flag.String("verif", "/verif", "verification directory")
+	seedDir := flag.String("seed", "", "internal: evaluate the property on the in-memory mutant of one seeded change directory")
 	flag.Parse()
 	verifDir = *vdir
 	if t := os.Getenv("VERIF_TIER"); t == "quick" || t == "thorough" {
@@ -93,6 +94,10 @@ func main() {
 		runControlChild(*repo, *prop, *controlName)
 		return
 	}
+	if *seedDir != "" {
+		runSeedChild(*repo, *prop, *seedDir)
+		return
+	}
 	if *dump != "" {
 		p, err := Load(*repo, nil)
 		if err != nil {
@@ -128,6 +133,7 @@ func main() {
 	}()
 	if *tier == "thorough" {
 		runControls(*repo, *prop, r)
+		runSeedControls(*repo, *prop, r)
 	}
 	os.Exit(r.Finish(false))
 }
